@@ -213,6 +213,8 @@ package main
 //@   ensures [C03] gone:    sess != nil && sess.multi == nil ==> !((sess in t.sessions) && t.sessions[sess].uid == asUid)
 //@   ensures [C03] no_new:  forall s *Session :: (s in t.sessions) ==> old(s in t.sessions) && t.sessions[s].uid == old(t.sessions[s].uid)
 //@   ensures [C14] untouched_when_not_found: pssd == nil ==> forall s *Session :: (s in t.sessions) == old(s in t.sessions)
+//@   ensures [C14] not_found_keeps_it: pssd == nil && sess != nil && sess.multi == nil ==> (sess in t.sessions) == old(sess in t.sessions)
+//@   ensures [C14] removed_means_dropped: sess != nil && sess.multi == nil ==> (removed == (old(sess in t.sessions) && !(sess in t.sessions)))
 //@   ensures [C10,C14] returns_the_entry: pssd != nil && sess != nil && sess.multi == nil ==> old(sess in t.sessions) && pssd.uid == old(t.sessions[sess].uid) && pssd.isChanSub == old(t.sessions[sess].isChanSub)
 
 //@ func (t *Topic) evictUser(uid types.Uid, unsub bool, skip string)
@@ -227,6 +229,9 @@ package main
 //@   modifies inferred
 //@   loop 1
 //@     invariant seen_clean: forall s *Session :: #seen[s] && (s in t.sessions) && s != nil && s.multi == nil ==> t.sessions[s].uid != uid
+// (whichever session the topic drops - the requester's own included, it is only spared the notice - is told to drop the
+// topic from its own table)
+//@     iterates [C14] dropped_session_is_told: s != nil && s.multi == nil && prev(s in t.sessions) && !(s in t.sessions) ==> called("detachSession") == prev(called("detachSession")) + 1
 
 // ---------------------------------------------------------------------------------------------
 // Set once by main() / package initialisation and never reassigned while serving (checked: no other writer).
@@ -1030,3 +1035,12 @@ package main
 //@   requires [C13] t != nil && sess != nil && msg != nil && msg.Del != nil
 //@   modifies inferred
 //@   ensures [C13] answered: outTotal > old(outTotal)
+
+// C14: a terminating session tells its topics only after its in-flight subscribe/leave has been settled (a topic that
+// is still attaching the session is not yet in its table and would never be told), exactly once, and then stops its
+// write loop.
+//@ func (s *Session) cleanUp(expired bool)
+//@   requires [C14] s != nil && s.inflightReqs != nil && s.bkgTimer != nil
+//@   modifies *
+//@   assert at call unsubAll [C14] after_inflight_settled: called("Wait") == old(called("Wait")) + 1
+//@   ensures [C14] topics_told_once: called("unsubAll") == old(called("unsubAll")) + 1
